@@ -225,15 +225,15 @@ class _CleanQ:
     """FlwCleanQ.tla: the background cleanup thread, its channel and the limits at shutdown - model checked for every
     interleaving of the cleanup steps with further rotations, its behaviours stepped through the real code with the
     cleanup thread held at its hook points (TraceFlwCleanQ.tla: equal directory contents, predicted park points)."""
-    KM = [(1, 1), (0, 1), (2, 0), (0, 2), (1, 0), (1, 2)]
+    KM = [(k, m, d) for d in (False, True) for (k, m) in [(1, 1), (0, 1), (2, 0), (0, 2), (1, 0), (1, 2)]]
 
     def before(self, wd, tier, seed, sc0):
         import random
         from . import common as C
         mc_stats, states, transitions = [], 0, 0
         t = "q" if tier == "quick" else "t"
-        for (k, m) in self.KM:
-            cfg = f"MCFlwCleanQ_{t}_{k}{m}.cfg"
+        for (k, m, d) in self.KM:
+            cfg = f"MCFlwCleanQ_{t}_{k}{m}{'d' if d else ''}.cfg"
             r = C.run_tlc("MCFlwCleanQ.tla", os.path.join(C.SPEC, cfg), os.path.join(wd, "mcq-" + cfg), workers=2, timeout=900)
             if r["violated"] or r["deadlock"]:
                 raise C.ToolError(f"FlwCleanQ/{cfg} violates {r['violated']}: the model or the formalisation is wrong")
@@ -247,18 +247,18 @@ class _CleanQ:
             if must != ("C07_LimitsAtShutdown" in (r["violated"] or [])) or (not must and r["violated"]):
                 raise C.ToolError(f"FlwCleanQ variant {v}: expected {'a violation of' if must else 'no violation of'} "
                                   f"C07_LimitsAtShutdown, got {r['violated']}")
-        C.log(f"[C07] TLC FlwCleanQ.tla ({len(self.KM)} cleanup configurations x {3 if tier == 'quick' else 5} rotations, every "
+        C.log(f"[C07] TLC FlwCleanQ.tla ({len(self.KM)} cleanup configurations (rCURRENT and direct naming) x {3 if tier == 'quick' else 5} rotations, every "
               f"interleaving of recv / listing / remove / compression steps with rotations and shutdown): {states} distinct states; "
-              f"LimitsAtShutdown, NotRemovedEarly, NotCompressedEarly, OriginalUntilFinished and the liveness property ShutdownReturns "
+              f"LimitsAtShutdown, NotRemovedEarly, NotCompressedEarly, OriginalUntilFinished, CurrentSafe and the liveness property ShutdownReturns "
               f"hold; the variants 'a Die overrides queued Acts' and 'shutdown does not join' violate LimitsAtShutdown, "
               f"'consecutive Acts coalesced' does not (sanity of the invariant)")
         scens = []
         rng = random.Random(seed * 31 + 7)
         self.nbeh = 0
-        for (k, m) in self.KM:
+        for (k, m, d) in self.KM:
             reps = []
             for g in (["gen"] if tier == "quick" else ["gen", "gent"]) + (["gent"] if tier == "quick" and (k, m) == (1, 1) else []):
-                cfg = f"MCFlwCleanQ_{g}_{k}{m}.cfg"
+                cfg = f"MCFlwCleanQ_{g}_{k}{m}{'d' if d else ''}.cfg"
                 r = C.run_tlc("MCFlwCleanQ.tla", os.path.join(C.SPEC, cfg), os.path.join(wd, "genq-" + cfg), workers=1, timeout=600)
                 rr = C.replay_lines(r)
                 if g == "gent" and tier == "quick":
@@ -283,14 +283,14 @@ class _CleanQ:
                     elif op == "Join":
                         steps.append({"op": "ShutdownEnd"})
                 steps.append({"op": "Stop", "shutdown": False})
-                c = {"naming": "Num", "rot": True, "size": 1000000, "mode": ["direct", "buf"][j % 2],
+                c = {"naming": "NumD" if d else "Num", "rot": True, "size": 1000000, "mode": ["direct", "buf"][j % 2],
                      "cap": 64, "bg": True, "crlf": False}
                 if k or not m:
                     c["k"] = k
                 if m:
                     c["m"] = m
                 scens.append({"sc": sc0 + len(scens), "cfg": c, "t0": 1000, "steps": steps, "origin": "tlc:FlwCleanQ",
-                              "obs": "sync", "cq": {"k": k, "m": m}})
+                              "obs": "sync", "cq": {"k": k, "m": m, "d": d}})
         self.n = len(scens)
         return scens, mc_stats, states, transitions
 
@@ -306,7 +306,7 @@ class _CleanQ:
                     cur = None
                     if '"origin":"tlc:FlwCleanQ"' in line:
                         e = json.loads(line)
-                        cur = (e["cfg"].get("k", 0), e["cfg"].get("m", 0))
+                        cur = (e["cfg"].get("k", 0), e["cfg"].get("m", 0), e["cfg"].get("naming") == "NumD")
                 if cur is not None:
                     per.setdefault(cur, []).append(line)
         drifts = []
@@ -315,11 +315,11 @@ class _CleanQ:
             lines = per[km]
             out = []
             for rnd in range(4):
-                tf = os.path.join(wd, f"cq-{km[0]}{km[1]}-{rnd}.ndjson")
+                tf = os.path.join(wd, f"cq-{km[0]}{km[1]}{int(km[2])}-{rnd}.ndjson")
                 open(tf, "w").writelines(lines)
                 r = C.run_tlc("TraceFlwCleanQ.tla", os.path.join(C.SPEC, "TraceFlwCleanQ.cfg"),
-                              os.path.join(wd, f"cq-meta-{km[0]}{km[1]}-{rnd}"), workers=1, timeout=900,
-                              env={"TRACE": tf, "K": str(km[0]), "M": str(km[1])}, xmx="2g")
+                              os.path.join(wd, f"cq-meta-{km[0]}{km[1]}{int(km[2])}-{rnd}"), workers=1, timeout=900,
+                              env={"TRACE": tf, "K": str(km[0]), "M": str(km[1]), "DIRECT": "1" if km[2] else "0"}, xmx="2g")
                 consumed = 0
                 for tag, rest in r["printed"]:
                     if tag == "CONSUMED":
